@@ -21,7 +21,7 @@
 #define XSPEC_NAME_MAX 255
 #define XSPEC_ENTRY_HDR 16ull
 #define XSPEC_TERMINATOR 4ull
-#define XSPEC_ROUND4(n) (((unsigned long long)(n) + 3ull) / 4ull * 4ull)
+#define XSPEC_ROUND4(n) (((unsigned long long)(n) + 3ull) & ~3ull)	/* kernel: (x + EXT4_XATTR_ROUND) & ~EXT4_XATTR_ROUND */
 #define XSPEC_ENTRY_LEN(name_len) XSPEC_ROUND4(XSPEC_ENTRY_HDR + (unsigned long long)(name_len))
 #define XSPEC_VALUE_SIZE(size) XSPEC_ROUND4(size)
 /* bytes of a region (inode body or block) one attribute occupies */
